@@ -194,7 +194,15 @@ def _worker(items):
             except Exception as e:
                 out.append(("m", seed, "", "", (0, "pickle round trip raised %r" % (e,)), False, ""))
         else:
-            out.append(("o", seed) + oracle_one(seed))
+            try:
+                out.append(("o", seed) + oracle_one(seed))
+            except RecursionError:
+                raise
+            except Exception as e:      # noqa: BLE001
+                import traceback
+                tb = traceback.extract_tb(e.__traceback__)
+                out.append(("o", seed, "restored objects: an edit or a read raised %r [%s]" % (
+                    e, " <- ".join("%s:%d" % (f.name, f.lineno) for f in tb[-4:])), {"proto": "?", "what": "?"}, False))
     return out
 
 
